@@ -30,6 +30,7 @@ class Contract:
         self.induction = ()
         self.theorems = ()
         self.native_only = ()
+        self.opaque_str = ()
         self.as_function = False
         self.reveal_in = ()
         self.invariants = {}     # ordinal -> (inv FunctionDef, var FunctionDef or None)
@@ -137,10 +138,10 @@ def load_contracts(index, only_props=None):
                 elif isinstance(st, ast.Assign) and isinstance(st.targets[0], ast.Name):
                     n = st.targets[0].id
                     if n not in ('raises', 'modifies', 'reveal', 'nullable', 'lemmas', 'opaque', 'result_kind', 'tactics',
-                                 'lemma', 'no_functional', 'kinds', 'doc_view', 'induction', 'as_function', 'reveal_in', 'theorems', 'native_only'):
+                                 'lemma', 'no_functional', 'kinds', 'doc_view', 'induction', 'as_function', 'reveal_in', 'theorems', 'native_only', 'opaque_str'):
                         continue        # native-only attributes (input generators of the bounded stand-in)
                     val = _const_eval(st.value, NSL)
-                    if n in ('raises', 'modifies', 'reveal', 'nullable', 'lemmas', 'induction', 'reveal_in', 'theorems', 'native_only'):
+                    if n in ('raises', 'modifies', 'reveal', 'nullable', 'lemmas', 'induction', 'reveal_in', 'theorems', 'native_only', 'opaque_str'):
                         setattr(c, n, tuple(val) if not isinstance(val, str) else (val,))
                     elif n in ('opaque', 'result_kind', 'tactics', 'lemma', 'no_functional', 'kinds', 'doc_view', 'as_function'):
                         setattr(c, n, val)
